@@ -39,8 +39,10 @@ type Res struct {
 	Chunked        bool // send without Content-Length
 	AbortAfter     int  // >=0: the body reader fails after that many bytes (origin transfer aborts)
 	Force          int  // if non-zero, answer every request with this status (body "status <n>")
+	ForceOnce      int  // like Force, but only for the next request (a transient origin error)
 	NoDate         bool
 	RawBody        []byte // if non-nil, used instead of the self-describing body
+	Headers416     H      // if non-nil, a 416 answer carries these headers instead of Headers
 }
 
 // ReqRec is one request as the origin received it.
@@ -212,6 +214,11 @@ func (o *Origin) respond(req *http.Request, uri string, rec *ReqRec) *http.Respo
 	if !r.LM.IsZero() {
 		h.Set("Last-Modified", r.LM.UTC().Format(http.TimeFormat))
 	}
+	if r.ForceOnce != 0 {
+		st := r.ForceOnce
+		r.ForceOnce = 0
+		return MakeResponse(st, h, []byte("status "+strconv.Itoa(st)), false, -1)
+	}
 	if r.Force != 0 {
 		return MakeResponse(r.Force, h, []byte("status "+strconv.Itoa(r.Force)), false, -1)
 	}
@@ -245,6 +252,9 @@ func (o *Origin) respond(req *http.Request, uri string, rec *ReqRec) *http.Respo
 		rg := req.Header.Get("Range")
 		first, last, ok := parseSimpleRange(rg, len(body))
 		if !ok {
+			if r.Headers416 != nil {
+				h = r.Headers416.ToHeader()
+			}
 			h.Set("Content-Range", "bytes */"+strconv.Itoa(len(body)))
 			return MakeResponse(416, h, []byte("range not satisfiable"), false, -1)
 		}
